@@ -67,6 +67,9 @@ func (rq *remoteQueue) first() remoteItem {
 func (rq *remoteQueue) retryLast() {
 	if rq.lastConsumed != nil {
 		rq.head = rq.lastConsumed
+		// it is the head of the queue again: the next consume must not hand it back to the pool
+		// while it is still linked (it would be released twice and end up in two queues at once)
+		rq.lastConsumed = nil
 	}
 }
 
